@@ -35,11 +35,11 @@ class FakeDevice:
         return "<FakeDevice %s %s>" % (self.hostname, self.hw.model)
 
 
-def make_partial(name, vendor, acl_text, run_fn, supported=True, acl_safe_text=None, vendor_neutral=False):
+def make_partial(name, vendor, acl_text, run_fn, supported=True, acl_safe_text=None, vendor_neutral=False, tags=None):
     """-> instance of a fresh PartialGenerator subclass called `name`.
     run_fn(self, device) is a generator function yielding rows / tuples, using self.block() etc."""
     from annet.generators import PartialGenerator
-    ns = {"TAGS": [name.lower()]}
+    ns = {"TAGS": [name.lower()] + list(tags or [])}
     if supported:
         if vendor_neutral:
             ns["run"] = run_fn
